@@ -615,7 +615,7 @@ def take(outname, inname, chunks, index, axis=0):
             }
             return tuple(chunks), graph
 
-        average_chunk_size = int(full_length / len(chunks[axis]))
+        average_chunk_size = max(1, int(full_length / len(chunks[axis])))
 
         indexer = []
         index = asarray_safe(index, like=index)
